@@ -312,8 +312,9 @@ pub fn judge(findings: &Flat, report: &str, t: &Tables) -> Vec<Finding> {
     back.sort();
     let want = triples(findings);
     if back != want {
-        let missing: Vec<_> = want.iter().filter(|x| !back.contains(x)).take(3).collect();
-        let extra: Vec<_> = back.iter().filter(|x| !want.contains(x)).take(3).collect();
+        let (missing_all, extra_all) = multiset_minus(&want, &back);
+        let missing: Vec<_> = missing_all.iter().take(3).collect();
+        let extra: Vec<_> = extra_all.iter().take(3).collect();
         let clause = if back.len() < want.len() {
             "entries_lost"
         } else if back.len() > want.len() {
@@ -485,6 +486,25 @@ pub fn judge(findings: &Flat, report: &str, t: &Tables) -> Vec<Finding> {
         }
     }
     out
+}
+
+/// (in a but not in b, in b but not in a), as multisets; both inputs sorted.
+pub fn multiset_minus<T: Ord + Clone>(a: &[T], b: &[T]) -> (Vec<T>, Vec<T>) {
+    let (mut i, mut j) = (0, 0);
+    let (mut only_a, mut only_b) = (vec![], vec![]);
+    while i < a.len() || j < b.len() {
+        if i < a.len() && j < b.len() && a[i] == b[j] {
+            i += 1;
+            j += 1;
+        } else if j >= b.len() || (i < a.len() && a[i] < b[j]) {
+            only_a.push(a[i].clone());
+            i += 1;
+        } else {
+            only_b.push(b[j].clone());
+            j += 1;
+        }
+    }
+    (only_a, only_b)
 }
 
 pub fn cat_letter(cat: Cat) -> &'static str {
